@@ -8,6 +8,9 @@
 #include <occa/internal/utils/sys.hpp>
 #include <occa/internal/utils/env.hpp>
 #include <occa/internal/io.hpp>
+#ifdef LIBOCCA_OCCA_VERIF
+#include <occa/internal/verif.hpp>
+#endif
 
 namespace occa {
   //---[ Utils ]------------------------
@@ -102,6 +105,9 @@ namespace occa {
       return;
     }
     modeDevice->removeDeviceRef(this);
+#ifdef LIBOCCA_OCCA_VERIF
+    verif::yield(verif::ptAfterRemoveDeviceRef);
+#endif
     if (modeDevice->modeDevice_t::needsFree()) {
       free();
     }
@@ -471,10 +477,16 @@ namespace occa {
     memory mem(modeDevice->malloc(bytes, src, memProps));
     mem.setDtype(dtype);
 
+#ifdef LIBOCCA_OCCA_VERIF
+    verif::yield(verif::ptBeforeBytes);
+#endif
     modeDevice->bytesAllocated += bytes;
     modeDevice->maxBytesAllocated = std::max(
       modeDevice->maxBytesAllocated, modeDevice->bytesAllocated
     );
+#ifdef LIBOCCA_OCCA_VERIF
+    verif::yield(verif::ptAfterBytes);
+#endif
 
     return mem;
   }
